@@ -10,8 +10,17 @@ Driver for C02.  Request line (fields `k=v` separated by single spaces, values w
   list    ::= n , node*n
   op      ::= is:a:b | prec:a:b | foll:a:b | union:xs:ys | inter:xs:ys | except:xs:ys
             | inner:xs | outer:xs | root:a            -- xs ::= i.j.k | _  (indices into `iter`)
+            | chain:xs:ys:zs                          -- `$A | $B | $C`
+            | lzsub:k | descsub:k                     -- iter_lazy (all built) / iter_descendants of element k
+            | croot:c:k | cprec:c:a:b | cfoll:c:a:b   -- context root = node c (`-` = context without root)
+            | reget:N|T|F:k                           -- get_node_tree(node k, fragment)
+            | ecmp:is|prec|foll:L|R:k | eroot         -- empty operand
+            | citem:k                                 -- XPathContext(root, item=<wrapped object of node k>).item
+  lz=<i.j|_>/<i.j|_>  elements (indices) whose namespace nodes / attributes are built for the `lazy1` answer
 
-Answer:  model=<dump> spec=<dump> ops=<m/s;m/s;…|_>
+Answer:  model=<dump> spec=<dump> ops=<m/s;m/s;…|_> lazy0=<idxs> lazy1=<idxs> desc=<idxs>
+  (`lazy0`: root.iter_lazy() with nothing built, `lazy1`: with the `lz` state, `desc`: root.iter_descendants();
+   for croot/cprec/cfoll the spec part carries `!` when the operands leave the context root's subtree = F02e region)
   model dump: `ERR:type` | `ERR:bad` | nodes `kind,name,pos,parentIdx,sv` joined by `|`
   spec  dump: `ERR` | nodes `kind,name,parentIdx,sv,inK` in document order joined by `|`
               (`inK` = 1 when the node is an element/document whose string value lies in the region
@@ -20,6 +29,7 @@ Answer:  model=<dump> spec=<dump> ops=<m/s;m/s;…|_>
 -/
 import EPV.Proto
 import EPV.Spec.XDMTree
+import EPV.Model.BuilderIters
 open EPV.Proto EPV.Builder EPV.XDM
 
 abbrev P := StateT (List String) Option
@@ -171,6 +181,86 @@ def specItemsK (i : Input) : Option (List (Item × Bool)) :=
         else flagsOne i.cfg e
     items.zip (flags ++ List.replicate items.length false)
 
+def idxOfPos (nodes : List Rec) (p : Nat) : String :=
+  match nodes.findIdx? (·.pos == p) with
+  | some k => toString k
+  | none => "?"
+
+def showPosList (nodes : List Rec) : Option (List Nat) → String
+  | some l => if l.isEmpty then "_" else ".".intercalate (l.map (idxOfPos nodes))
+  | none => "ERR"
+
+def posOfIdx (nodes : List Rec) (k : Nat) : Nat := (nodes[k]?.map (·.pos)).getD 0
+
+/-- `c` in scope of context root `cr` (spec side): the node itself or one of its descendants -/
+def inScopeOf (items : List Item) (cr : Option Nat) (k : Nat) : Bool :=
+  match cr with
+  | none => false
+  | some c => k == c || isAncestor items c k items.length
+
+def parseCtx (s : String) : Option (Option Nat) := if s == "-" then some none else (nat? s).map some
+
+def answerTreeOp (root : PNode) (nodes : List Rec) (items : List Item) (op : String) : Option String :=
+  let allBuilt : LazyState := ⟨nodes.map (·.pos), nodes.map (·.pos)⟩
+  match op.splitOn ":" with
+  | ["ecmp", _, _, _] => some "-/-"      -- an empty operand: the comparison is the empty sequence
+  | ["eroot"] => some "-/-"               -- fn:root(()) = ()
+  | ["citem", k] => some s!"{k}/{k}"      -- tree.elements maps the wrapped object of node k to node k
+  | ["chain", xs, ys, zs] => match parseIdxs xs, parseIdxs ys, parseIdxs zs with
+    | some xs, some ys, some zs =>
+      some s!"{showIdxs (opUnion nodes (xs ++ ys) zs)}/{showIdxs (specUnion items.length (xs ++ ys) zs)}"
+    | _, _, _ => some "bad"
+  | ["lzsub", k] => match nat? k with
+    | some k => match nodeAt root (posOfIdx nodes k) with
+      | some sub =>
+        let sp := (List.range items.length).filter fun j => j == k || isAncestor items k j items.length
+        some s!"{showPosList nodes (iterLazyElem allBuilt sub)}/{showIdxs sp}"
+      | none => some "bad"
+    | none => some "bad"
+  | ["descsub", k] => match nat? k with
+    | some k => match nodeAt root (posOfIdx nodes k) with
+      | some sub =>
+        let sp := (List.range items.length).filter fun j =>
+          (j == k || isAncestor items k j items.length) &&
+          ((items[j]?.map fun it => it.kind != .namespace && it.kind != .attribute).getD false)
+        some s!"{showPosList nodes (iterDescElem sub)}/{showIdxs sp}"
+      | none => some "bad"
+    | none => some "bad"
+  | ["croot", c, k] => match parseCtx c, nat? k with
+    | some cr, some k =>
+      let m := ctxGetRoot root (cr.map (posOfIdx nodes)) allBuilt (posOfIdx nodes k)
+      let inS := inScopeOf items cr k
+      let sp := if inS then cr else some 0
+      some s!"{match m with | some p => idxOfPos nodes p | none => "-"}/{showON sp}{if inS then "" else "!"}"
+    | _, _ => some "bad"
+  | [nm, c, a, b] =>
+    if nm == "cprec" || nm == "cfoll" then
+      match parseCtx c, nat? a, nat? b with
+      | some cr, some a, some b =>
+        let m := ctxPrecedes root (cr.map (posOfIdx nodes)) (nm == "cfoll") (posOfIdx nodes a) (posOfIdx nodes b)
+        let inS := inScopeOf items cr a && inScopeOf items cr b
+        let sp := if nm == "cfoll" then specFollows a b else specPrecedes a b
+        some s!"{showOB m}/{showB sp}{if inS then "" else "!"}"
+      | _, _, _ => some "bad"
+    else none
+  | ["reget", f, k] =>
+    let frag : Option (Option Bool) := match f with
+      | "N" => some none | "T" => some (some true) | "F" => some (some false) | _ => none
+    match frag, nat? k with
+    | some fr, some k =>
+      match reget fr root (posOfIdx nodes k) with
+      | .error .missingRoot => some "ERR:missingRoot/-"
+      | .error .noSuchNode => some "bad"
+      | .ok r =>
+        let showRecs (l : List Rec) : String := ".".intercalate (l.map fun x => toString x.pos)
+        let sub := (iterAt none r.tree r.ret).getD []
+        let par := match sub.head? with
+          | some h => (match h.parent with | some q => toString q | none => "-1")
+          | none => "?"
+        some s!"{r.ret},{par},{showRecs sub},{showRecs (iter r.tree)}/-"
+    | _, _ => some "bad"
+  | _ => none
+
 def answerOp (nodes : List Rec) (items : List Item) (op : String) : String :=
   let n := items.length
   match op.splitOn ":" with
@@ -220,7 +310,16 @@ def answer (line : String) : String :=
       let opsF := field fs "ops"
       let ops := if opsF == "_" || opsF == "" then [] else opsF.splitOn ";"
       let items := (spec.getD []).map (·.1)
-      let opsS := if ops.isEmpty then "_" else ";".intercalate (ops.map (answerOp nodes items))
-      s!"model={modelDump nodes} spec={specS} ops={opsS}"
+      let opsS := if ops.isEmpty then "_" else ";".intercalate (ops.map fun op =>
+        match answerTreeOp root nodes items op with
+        | some a => a
+        | none => answerOp nodes items op)
+      let lzParts := (field fs "lz").splitOn "/"
+      let nsB := ((parseIdxs (lzParts.getD 0 "_")).getD []).map (posOfIdx nodes)
+      let atB := ((parseIdxs (lzParts.getD 1 "_")).getD []).map (posOfIdx nodes)
+      let lazy0 := showPosList nodes (iterLazy ⟨[], []⟩ root)
+      let lazy1 := showPosList nodes (iterLazy ⟨nsB, atB⟩ root)
+      let desc := showPosList nodes (iterDescendants root)
+      s!"model={modelDump nodes} spec={specS} ops={opsS} lazy0={lazy0} lazy1={lazy1} desc={desc}"
 
 def main : IO Unit := mainLoop answer
